@@ -83,6 +83,34 @@ func scenarioF3(c *Ctx) (*hist, bool, error) {
 	return h, h.c.nFail > nf, nil
 }
 
+// F10: managed mode; a delete at version 7 is compacted away, then an older version 5 is written.
+func scenarioF10(c *Ctx) (*hist, bool, error) {
+	h, err := newHist(c, sysOpts{Managed: true, NKeep: 1, MaxLevels: 4, VThreshold: 32, TableSize: 1 << 20, BaseLevelSize: 8 << 10})
+	if err != nil {
+		return nil, false, err
+	}
+	defer h.close()
+	k := []byte("k")
+	h.begin(0, true, 0)
+	h.modify(0, k, nil, mDelete, 0, 0)
+	h.commit(0, 7)
+	if err := h.flush(); err != nil {
+		return h, false, err
+	}
+	h.setDiscard(7)
+	if ok, err := h.compact(0, false, nil); err != nil || !ok {
+		return h, false, fmt.Errorf("F10 scenario: compaction did not run (%v)", err)
+	}
+	h.begin(1, true, 0)
+	h.modify(1, k, []byte("v5"), 0, 0, 0)
+	h.commit(1, 5)
+	nf := h.c.nFail
+	h.begin(2, false, 9)
+	h.get(2, k)
+	h.discard(2)
+	return h, h.c.nFail > nf, nil
+}
+
 type scenario struct {
 	id  string
 	run func(c *Ctx) (*hist, bool, error)
@@ -91,7 +119,7 @@ type scenario struct {
 var scenarios = map[string][]scenario{
 	"C12": {{"F1", scenarioF1}},
 	"C27": {{"F3", scenarioF3}},
-	"C36": {{"F3", scenarioF3}},
+	"C36": {{"F3", scenarioF3}, {"F10", scenarioF10}},
 	"C01": {{"F1", scenarioF1}},
 }
 
